@@ -605,7 +605,8 @@ class Check:
         "Generated method sets (2-5 methods, recurse / call_next bodies) x fault: (i) injected BaseException at the k-th "
         "executed line of library / generated code during first-use build, rebuild after register, or a cache-miss "
         "resolution with a call_next chain - quick: Hypothesis-drawn k, thorough: EVERY k for 8 method sets x 3 scenarios "
-        "x 2 entry points; (ii) five kinds of invalid method at every registration position, before and after first use; "
+        "x 2 entry points; (ii) five kinds of invalid method at every registration position, before and after first use, 1 in 3 with a "
+        "valid method taken out and put back while the invalid one is registered; "
         "(iii) class_check / __type_order__ / condition hooks raising on their n-th invocation. Afterwards every probe "
         "through the dispatch function, the Ovld object and f.next(...) from non-method code must equal a fresh function over the registered methods, or be a configuration error. "
         "Non-trivial = the fault struck inside the build / resolution code (or an invalid method / hook fault was "
